@@ -294,6 +294,43 @@ def gen_rooted_cycle(rng):
     return name, inner
 
 
+def gen_polymorphic_child(rng):
+    """a model inferred from a list of objects whose field holds a nested object in some items and a list of (other)
+    nested objects in others — one field owning two nested-model references — and a similar model elsewhere, so that the
+    polymorphic model is a member of a merge group"""
+    ks = rng.sample(WORDS, k=rng.randint(3, 5))
+    pay = ks[0]
+    rest = {k: 1 for k in ks[1:]}
+    one = dict(rest, **{pay: {"p": 1, "q": "s"}})
+    many = dict(rest, **{pay: [{"r": 1.5, "s": True}] if rng.random() < 0.7 else [{"p": 2, "q": "t"}, {"r": 1.5}]})
+    items = [one, many]
+    if rng.random() < 0.4:
+        items.append(dict(rest, **{pay: None}))
+    rng.shuffle(items)
+    out = {"x": items, "y": dict(rest, **{pay: {"p": 3, "q": "u"}})}
+    if rng.random() < 0.3:
+        out["z"] = {"inner": dict(rest, **{pay: [{"r": 2.5, "s": False}]})}
+    return out
+
+
+def gen_chain_samples(rng):
+    """several samples whose nested objects are similar along a CHAIN only (ten-key windows shifted by one key: neighbours
+    share 9 of 11 keys, windows two apart 8 of 12 < 70%), the chain nodes spread over samples and holder keys in a random
+    order — the merge result must be the whole chain whatever order the registry meets the pairs in"""
+    n = rng.randint(4, 6)
+    width = 10
+    nodes = [{"f%d" % j: 1 for j in range(i, i + width)} for i in range(n)]
+    order = list(range(n))
+    rng.shuffle(order)
+    samples = []
+    i = 0
+    while i < n:
+        k = rng.randint(1, 3)
+        samples.append({"h%d" % order[j]: nodes[order[j]] for j in range(i, min(n, i + k))})
+        i += k
+    return samples
+
+
 def gen_shared_samples(rng):
     return [gen_shared_shape(rng) for _ in range(rng.randint(1, 2))]
 
